@@ -21,6 +21,7 @@ TStep ==
      \/ e.op = "UnBecomeStacked" /\ UnBecomeStacked /\ Matches(e)
      \/ e.op = "UnBecome" /\ UnBecome /\ Matches(e)
      \/ e.op = "Restart" /\ Restart /\ Matches(e)
+     \/ e.op = "Crash" /\ Crash /\ Matches(e)
 TInit == Init /\ l = 1
 TSpec == TInit /\ [][TStep]_<<vars, l>>
 ====
